@@ -249,8 +249,8 @@ class Gen:
             for v in vn:
                 if v in simple:
                     continue
-                subs.append({"type": "object", "properties": {v: self.leafish(names, depth + 1)}, "required": [v],
-                             "additionalProperties": False})
+                subs.append({"type": "object", "properties": {v: _closed_payload(self.leafish(names, depth + 1))},
+                             "required": [v], "additionalProperties": False})
             return {"oneOf": subs}
         if k == "oneof_internal":
             # Random stream: all branches open or all closed (a mix is finding C02-F1, kept in the
@@ -267,7 +267,7 @@ class Gen:
             subs = []
             for v in vn:
                 subs.append({"type": "object", "properties": {"t": {"type": "string", "enum": [v]},
-                                                              "c": self.leafish(names, depth + 1)},
+                                                              "c": _closed_payload(self.leafish(names, depth + 1))},
                              "required": ["c", "t"], "additionalProperties": False})
             return {"oneOf": subs}
         if k in ("oneof_untagged", "anyof_exclusive"):
@@ -310,6 +310,17 @@ class Gen:
         doc = {"$schema": "http://json-schema.org/draft-07/schema#", "definitions": defs}
         break_required_cycles(doc)
         return doc, sorted(set(self.tags))
+
+
+def _closed_payload(s):
+    """An inline object used as the payload of a tagged variant becomes a struct VARIANT and falls under
+    the enum's container-level deny_unknown_fields: in the random stream its closedness follows the
+    (closed) branches; the mixed case is finding C02-F1 and lives in the curated corpus."""
+    if isinstance(s, dict) and s.get("type") == "object" and "properties" in s and \
+            not isinstance(s.get("additionalProperties"), dict):
+        s = dict(s)
+        s["additionalProperties"] = False
+    return s
 
 
 def resolve(doc, s):
